@@ -74,6 +74,61 @@ Theorem C12_lock_owner : forall cstate cinit cclosed process flush g progs s,
 Proof. intros cs ci cc pr fl g progs s R. exact (inv_lock_reachable cs ci cc pr fl g progs s R). Qed.
 Print Assumptions C12_lock_owner.
 
+(* at most one pool entry per key and (reassembly) its reverse, so both directions are attached
+   to one connection entry however their first packets race; no object under two keys; every
+   entry carries its own key; the free list has no duplicates and shares nothing with the map *)
+Definition C12_one_entry_stmt cstate cinit (g : config) (s : state cstate) : Prop :=
+  NoDup (map fst (s_conns s)) /\
+  NoDup (map snd (s_conns s)) /\
+  (forall k c, In (k, c) (s_conns s) -> c_key (obj cstate cinit s c) = k /\ c < length (s_objs s)) /\
+  (is_rsm g = true -> forall k c, In (k, c) (s_conns s) -> assoc (key_rev k) (s_conns s) = None) /\
+  NoDup (s_free s) /\
+  (forall c, In c (s_free s) -> ~ In c (map snd (s_conns s)) /\ c < length (s_objs s)).
+
+Theorem C12_one_entry : forall cstate cinit cclosed process flush g progs s,
+  machine_ok cstate cinit cclosed process flush ->
+  reachable cstate cinit cclosed process flush g progs s ->
+  C12_one_entry_stmt cstate cinit g s.
+Proof.
+  intros cs ci cc pr fl g progs s Hm R.
+  destruct (inv_pool_reachable cs ci cc pr fl Hm g progs s R) as [A B C D E F _ _].
+  split; [exact A|]. split; [exact B|]. split; [exact C|]. split; [exact D|]. split; [exact E|].
+  intros c Hc. destruct (F c Hc) as [F1 [F2 _]]. split; assumption.
+Qed.
+Print Assumptions C12_one_entry.
+
+(* a stream belongs to one connection object at a time (fresh stream per reset) *)
+Theorem C12_stream_owner_unique : forall cstate cinit cclosed process flush g progs s,
+  machine_ok cstate cinit cclosed process flush ->
+  reachable cstate cinit cclosed process flush g progs s ->
+  forall c1 c2, c1 < length (s_objs s) -> c2 < length (s_objs s) ->
+    c_stream (obj cstate cinit s c1) = c_stream (obj cstate cinit s c2) -> c1 = c2.
+Proof.
+  intros cs ci cc pr fl g progs s Hm R.
+  exact (is_inj _ _ _ _ (inv_str_reachable cs ci cc pr fl Hm g progs s R)).
+Qed.
+Print Assumptions C12_stream_owner_unique.
+
+(* C12_complete_once, the part that holds: no stream is completed twice (the other half of
+   the statement, "every kept stream is completed", is refuted below) *)
+Theorem C12_complete_once_partial : forall cstate cinit cclosed process flush g progs s,
+  machine_ok cstate cinit cclosed process flush ->
+  reachable cstate cinit cclosed process flush g progs s ->
+  forall sid, completes sid (s_log s) <= 1.
+Proof.
+  intros cs ci cc pr fl g progs s Hm R sid.
+  exact (proj1 (is_once _ _ _ _ (inv_str_reachable cs ci cc pr fl Hm g progs s R) sid)).
+Qed.
+Print Assumptions C12_complete_once_partial.
+
+(* the hypothesis on the per-connection machine holds for the two concrete machines *)
+Theorem C12_machine_ok_tcpassembly : machine_ok tconn tc_init tc_closed tcp_process tcp_flush.
+Proof. exact tcp_machine_ok. Qed.
+Theorem C12_machine_ok_reassembly : machine_ok rconn rc_init rc_closed rsm_process rsm_flush.
+Proof. exact rsm_machine_ok. Qed.
+Print Assumptions C12_machine_ok_tcpassembly.
+Print Assumptions C12_machine_ok_reassembly.
+
 (* ---------------------------------------------------------------- witnesses *)
 Definition kA0 := mkKey 0 false. Definition kA1 := mkKey 0 true.
 Definition kB0 := mkKey 1 false. Definition kD0 := mkKey 3 false.
@@ -167,6 +222,19 @@ Proof.
 Qed.
 Print Assumptions C12_complete_once_refuted_tcpassembly.
 Print Assumptions C12_complete_once_refuted_reassembly.
+
+(* non-vacuity of C12_one_entry: after the both-directions race on the repaired code the map
+   has exactly one entry, and after close + recycle the free list is non-empty *)
+Example C12_one_entry_nonvacuous :
+  let s := sched_tcp cfg_tcp w_rec_tcp [0; 0; 0; 0; 0; 1; 0] in
+  s_free s = [0] /\ s_conns s = [] /\ length (s_objs s) = 1 /\
+  C12_one_entry_stmt tconn tc_init cfg_tcp s.
+Proof.
+  split; [vm_compute; reflexivity|]. split; [vm_compute; reflexivity|]. split; [vm_compute; reflexivity|].
+  apply (C12_one_entry tconn tc_init tc_closed tcp_process tcp_flush cfg_tcp w_rec_tcp).
+  - exact tcp_machine_ok.
+  - apply sched_tcp_reach.
+Qed.
 
 (* non-vacuity of the invariants: the witness states are reachable and non-trivial *)
 Example C12_progress_nonvacuous :
